@@ -15,7 +15,7 @@ func init() {
 		ID: "C16",
 		Explanation: "Static conformance of the engine caller: (R1) every invocation of the derived context's cancel that can run before the caller's wg.Wait() returns lies on a path that first receives from the engine's done channel and only then starts and awaits a timer of conf.exitDelay (timer creation ordered after the done receive); the function-level deferred cancel runs after the wait; " +
 			"(R2) conf.exitDelay is written only by the withExitDelay option and the constructor default, every newEngineConfig site passes withExitDelay(opts.exitDelay), that options field is bound to the --exit-delay flag whose default is the 300ms constant also used as constructor default; the chunking starter copies the configuration without touching the delay; " +
-			"(R3) engine and logger run under the derived context, so they keep listening until that cancel.",
+			"(R3) engine and logger run under the derived context, so they keep listening until that cancel; (R4) done means sent: the sender closes done when its writing goroutine ends (C07.R3 re-evaluated) and every packet.Writer in the repository performs exactly one synchronous write to the layer below before returning (no queue or goroutine between WritePacketData and the wire).",
 		NotDecided:  []string{"that the delay elapses in wall-clock terms", "that a reply arriving within the delay is delivered by kernel and scheduler in time"},
 		Assumptions: []string{"time.After/NewTimer/Sleep wait at least the given duration", "context.WithCancel semantics"},
 		Run:         runC16,
@@ -31,8 +31,9 @@ func engineCallers(p *Prog) []*ssa.Function {
 
 func runC16(p *Prog, r *Report) {
 	r.Min("C16.R1", 2)
-	r.Min("C16.R2", 11+4)
+	r.Min("C16.R2", 11+1+4) // 11 commands, >= 1 construction site, default, flags
 	r.Min("C16.R3", 2)
+	r.Min("C16.R4", 4)
 	callers := engineCallers(p)
 	var fs []*ssa.Function
 	for _, f := range callers {
@@ -48,6 +49,82 @@ func runC16(p *Prog, r *Report) {
 		checkCancelOrder(p, r, f, "C16.R1", "C16.R3")
 	}
 	checkExitDelayProvenance(p, r)
+	checkDoneMeansSent(p, r)
+}
+
+// checkDoneMeansSent (R4): "the last probe has left" is what the engine's done channel announces.
+// (a) the sender closes done when its writing goroutine ends and the engine returns that channel
+// (C07.R3 re-evaluated); (b) every packet.Writer of the repository writes synchronously: when
+// WritePacketData returns, the frame has been handed to the layer below - no queue, no goroutine.
+func checkDoneMeansSent(p *Prog, r *Report) {
+	sub := NewReport("C16", r.Tier)
+	runC07(p, sub)
+	for _, o := range sub.Obs {
+		if o.Rule == "C07.R3" {
+			o2 := *o
+			o2.Rule = "C16.R4"
+			r.Obs = append(r.Obs, &o2)
+		}
+	}
+	n := 0
+	for _, fn := range p.Implementers(modPath+"/pkg/packet", "Writer", "WritePacketData") {
+		if fn.Blocks == nil || fn.Synthetic != "" {
+			continue
+		}
+		n++
+		name := FuncName(fn)
+		pos := p.Pos(fn.Pos())
+		fp := PathsInl(fn)
+		if len(fp.Headers) > 0 || fp.Truncated {
+			r.Undecided("C16.R4", name+"/synchronous", pos, "the writer is loop-free", "loop in a packet writer")
+			continue
+		}
+		ok, why := true, ""
+		for _, s := range fp.Segs {
+			if !s.Returns() {
+				continue
+			}
+			var wr *ssa.Call
+			nw := 0
+			for _, e := range s.Events {
+				switch e.Kind {
+				case EvSend, EvGo:
+					ok, why = false, "the frame is handed to another goroutine ("+s.DescribeEvent(p, e)+"): WritePacketData returns before the frame has left"
+				case EvCall:
+					if e.Call != nil && calleeName(e.Call) == "WritePacketData" {
+						nw++
+						if c, isC := e.Instr.(*ssa.Call); isC {
+							wr = c
+						}
+					}
+				}
+			}
+			if nw != 1 {
+				if retClass(s) == retFail {
+					continue // refused before writing
+				}
+				ok, why = false, fmt.Sprintf("a returning path performs %d writes to the layer below (expected exactly one)", nw)
+				continue
+			}
+			if wr != nil && s.Resolve(s.Exit.(*ssa.Return).Results[0]) != ssa.Value(wr) {
+				ok, why = false, "the error of the write below is not what WritePacketData returns"
+			}
+		}
+		r.Check(ok, "C16.R4", name+"/synchronous", pos, "WritePacketData returns only after exactly one synchronous write to the layer below, whose error it returns (so the sender's done means sent)", why)
+	}
+	if n < 2 {
+		r.Viol("C16.R4", "packet writers", "-", "the repository's packet.Writer implementations are found (rate limiter, afpacket source)", fmt.Sprint(n))
+	}
+}
+
+func calleeName(c *ssa.CallCommon) string {
+	if c.IsInvoke() {
+		return c.Method.Name()
+	}
+	if f := StaticCallee(c); f != nil {
+		return f.Name()
+	}
+	return ""
 }
 
 // checkCancelOrder implements C16.R1/R3 (also used as C08.R5).
@@ -182,7 +259,7 @@ func checkCancelOrder(p *Prog, r *Report, fn *ssa.Function, rule, rule3 string) 
 			continue
 		}
 		n++
-		gp := Paths(g)
+		gp := PathsInl(g)
 		if len(gp.Headers) > 0 {
 			r.Undecided(rule, FuncName(g), p.Pos(g.Pos()), "the cancelling goroutine is loop-free", "loops in the cancel goroutine are not modelled")
 			continue
@@ -215,7 +292,7 @@ func checkCancelOrder(p *Prog, r *Report, fn *ssa.Function, rule, rule3 string) 
 			doneOrd, timerOrd, waitOrd := -1, -1, -1
 			var timerDur ssa.Value
 			for _, rc := range s.Recvs() {
-				if isDone(rc.Chan) && doneOrd < 0 {
+				if (isDone(rc.Chan) || isDone(s.Resolve(rc.Chan))) && doneOrd < 0 {
 					doneOrd = rc.Ev.Ord
 				}
 			}
@@ -278,6 +355,10 @@ func checkCancelOrder(p *Prog, r *Report, fn *ssa.Function, rule, rule3 string) 
 				r.Viol(rule, key, p.Pos(g.Pos()), "cancel is preceded by a wait of the exit delay after done", "no timer wait between the done receive and cancel", s.Describe(p)...)
 			default:
 				_, f, ok := fieldLoad(s.Resolve(timerDur))
+				if !ok {
+					// a once-assigned local copy of the configured delay (possibly captured by the goroutine)
+					_, f, ok = fieldLoad(throughOnceAssigned(p, s.Resolve(timerDur)))
+				}
 				r.Check(ok && f == "exitDelay", rule, key, p.Pos(g.Pos()), "the awaited duration is the configuration's exitDelay", "timer duration is "+s.Term(timerDur), s.Describe(p)...)
 			}
 		}
@@ -417,6 +498,31 @@ func checkExitDelayProvenance(p *Prog, r *Report) {
 		r.Check(good, "C16.R2", key, p.Pos(cs.Pos()), "withExitDelay receives the options field bound to --exit-delay (default 300ms)", detail)
 	}
 	r.Count("newEngineConfig_sites", len(sites))
+	// every command reaches one of these (checked) construction sites: a command that built its
+	// configuration some other way would silently ignore --exit-delay
+	siteFns := map[*ssa.Function]bool{}
+	for _, cs := range sites {
+		f := cs.Parent()
+		for f.Parent() != nil && !isRunE(f) {
+			f = f.Parent()
+		}
+		siteFns[f] = true
+	}
+	nCmd := 0
+	for _, fn := range p.SrcFuncs() {
+		if fn.Pkg != p.SPkg("command") || !isRunE(fn) {
+			continue
+		}
+		nCmd++
+		reached := false
+		for f := range p.staticReach(fn) {
+			if siteFns[f] {
+				reached = true
+			}
+		}
+		r.Check(reached || siteFns[fn], "C16.R2", FuncName(fn)+"/reaches-config-site", p.Pos(fn.Pos()), "the command builds its engine configuration at one of the checked newEngineConfig sites", "no construction site is statically reachable from this command")
+	}
+	r.Count("commands", nCmd)
 	// flag registrations themselves
 	for _, rg := range p.FlagTable() {
 		if rg.Name == "exit-delay" {
@@ -435,4 +541,37 @@ func siteOrdinal(sites []ssa.CallInstruction, i int) int {
 		}
 	}
 	return n
+}
+
+// throughOnceAssigned follows loads of local cells (also captured ones) that are stored exactly once
+// to the stored value.
+func throughOnceAssigned(p *Prog, v ssa.Value) ssa.Value {
+	for i := 0; i < 6; i++ {
+		u, ok := v.(*ssa.UnOp)
+		if !ok || u.Op != token.MUL {
+			return v
+		}
+		cell := u.X
+		for j := 0; j < 6; j++ {
+			fv, isFV := cell.(*ssa.FreeVar)
+			if !isFV {
+				break
+			}
+			b := BindingOf(fv)
+			if b == nil {
+				return v
+			}
+			cell = b
+		}
+		a, isA := cell.(*ssa.Alloc)
+		if !isA {
+			return v
+		}
+		st := p.StoresToAlloc(a)
+		if len(st) != 1 {
+			return v
+		}
+		v = st[0]
+	}
+	return v
 }
